@@ -4,7 +4,7 @@ Statements only, over the `Sched3Set` model (scheduler core + flows + `cylc set`
 set_prereqs_and_outputs / _set_outputs_itask / _set_prereqs_itask / _set_prereqs_tdef / process_message(forced)),
 for all instance graphs and all states; proofs by reference to `Sched3SetSet` / `Sched3SetFrame`.
 -/
-import CylcModel.Sched3SetFrame
+import CylcModel.Sched3SetReady
 namespace CylcModel.C29
 open CylcModel.Sched3Set
 
@@ -84,6 +84,31 @@ theorem ready_is_queued (s : State) (x : Proxy) (hx : s.get? x.pt x.name = some 
   · unfold Proxy.reset; simp [hq]
   · unfold Proxy.reset; simp [hq, hw]
 
+/-- **a ready task runs**: a pooled task that is waiting, not held, released from the runahead pool, with all its
+prerequisites satisfied (e.g. by `cylc set --pre`) and submitted `sn` times so far is submitted under the number
+`sn + 1` by the queue-if-ready sweep followed by the release / submit step of the main loop (the two steps of
+`_main_loop` between the shutdown check and the message processing; they run when the scheduler is neither paused
+nor stopping) -/
+theorem ready_task_is_launched (s : State) (p : Int) (n : String) (sn : Nat) (h : ReadyAt s p n sn false) :
+    (p, n, sn + 1) ∈ (releaseAndSubmit (sweepQueue s)).launched :=
+  Sched3Set.ready_task_is_launched s p n sn h
+
+/-! ### "spawns the children of those outputs with the corresponding prerequisites satisfied" -/
+
+/-- when `spawn_on_output` (natural or forced by `cylc set`; the parent `(p, n)` a pooled proxy or a transient
+object) has the child of output `out` in hand - found in the pool or spawned - the child is in the pool afterwards
+only with every occurrence of the prerequisite `p/n:out` satisfied (ordinary and suicide prerequisites) -/
+theorem child_prereq_satisfied (g : Graph) (p : Int) (n out : String) (acc : State × List (Int × String)) (c : Child)
+    (hR : (findOrSpawnChild g (recordAbs acc.1 ⟨p, n, out⟩ c.isAbs) p n (parentFlows acc.1 p n) c).2.isSome = true)
+    (y : Proxy) (hy : (spawnChild g p n out acc c).1.get? c.pt c.name = some y) : AtomSat ⟨p, n, out⟩ y :=
+  spawnChild_child_satisfied g p n out acc c hR y hy
+
+/-- ... in particular a child that is in the pool already -/
+theorem pooled_child_prereq_satisfied (g : Graph) (p : Int) (n out : String) (acc : State × List (Int × String))
+    (c : Child) (hne : ¬ (c.pt = p ∧ c.name = n)) (y0 : Proxy) (h0 : acc.1.get? c.pt c.name = some y0)
+    (y : Proxy) (hy : (spawnChild g p n out acc c).1.get? c.pt c.name = some y) : AtomSat ⟨p, n, out⟩ y :=
+  spawnChild_pooled_child_satisfied g p n out acc c hne y0 h0 y hy
+
 /-! ### "never puts the task into the submitted or running state" -/
 
 /-- **`cylc set` launches no job**, requests no poll, and leaves alone: the message queue, the stop / pause / stall
@@ -106,36 +131,153 @@ theorem set_frame (g : Graph) (s : State) (id : Int × String) (outs : List Stri
     (flow : FlowSpec) (wait : Bool) : frame (setCmd g s id outs pre flow wait) = frame s :=
   frame_setCmd g s id outs pre flow wait
 
-/-- a forced state change cannot lead to the submitted or running state: the three status resets of a forced
-message are to `succeeded`, `failed` (`submit-failed` once repaired) and `expired`; a forced `started` /
-`submitted` changes no status (`TaskState.reset(forced=True)`) -/
-theorem forced_message_status (g : Graph) (s : State) (p : Int) (n : String) (flag : Flag) (msg : String)
-    (c : Option Bool) (x : Proxy) (tr : Bool) (hl : lookup s p n = some (x, tr))
-    (hmsg : msg = "started" ∨ msg = "submitted") (hflag : flag = .internal) :
-    ∃ y, (handleMessage g s p n flag msg true c).1 =
-      spawnChildren g (store s y tr) p n msg tr true ∧ y.status = x.status := by
+/-- **`cylc set` creates no submitted / running status** (any graph, any state, any target - pooled or not - any
+outputs / prerequisites / `--flow` / `--wait`): a proxy that is submitted or running in the pool after the command
+was submitted or running before - as the pooled proxy (or transient object) of that instance, or in a row of the
+database history of that instance (committed, or queued for writing), from which `spawn_task` re-creates proxies
+with their recorded status. -/
+theorem set_creates_no_active_status (g : Graph) (s : State) (id : Int × String) (outs : List String) (pre : PreSpec)
+    (flow : FlowSpec) (wait : Bool) (y : Proxy) (hy : y ∈ (setCmd g s id outs pre flow wait).pool)
+    (ha : y.status.isActive = true) :
+    (∃ x ∈ s.pool ++ s.ghosts, x.pt = y.pt ∧ x.name = y.name ∧ x.status = y.status) ∨
+    (∃ r ∈ s.rows ++ s.qIns, r.pt = y.pt ∧ r.name = y.name ∧ r.status = y.status) ∨
+    (∃ u ∈ s.qUpd, u.pt = y.pt ∧ u.name = y.name ∧ u.status = y.status) :=
+  setCmd_no_new_active g s id outs pre flow wait y hy ha
+
+/-- ... in particular: an instance that is neither submitted nor running, and whose database history records no
+such status, is not submitted or running after the command -/
+theorem set_never_makes_active (g : Graph) (s : State) (id : Int × String) (outs : List String) (pre : PreSpec)
+    (flow : FlowSpec) (wait : Bool) (y : Proxy) (hy : y ∈ (setCmd g s id outs pre flow wait).pool)
+    (h1 : ∀ x ∈ s.pool ++ s.ghosts, x.pt = y.pt → x.name = y.name → x.status.isActive = false)
+    (h2 : ∀ r ∈ s.rows ++ s.qIns, r.pt = y.pt → r.name = y.name → r.status.isActive = false)
+    (h3 : ∀ u ∈ s.qUpd, u.pt = y.pt → u.name = y.name → u.status.isActive = false) :
+    y.status.isActive = false := by
+  cases ha : y.status.isActive with
+  | false => rfl
+  | true =>
+    rcases setCmd_no_new_active g s id outs pre flow wait y hy ha with ⟨x, hx, e1, e2, e3⟩ | ⟨r, hr, e1, e2, e3⟩ | ⟨u, hu, e1, e2, e3⟩
+    · have := h1 x hx e1 e2; rw [e3, ha] at this; cases this
+    · have := h2 r hr e1 e2; rw [e3, ha] at this; cases this
+    · have := h3 u hu e1 e2; rw [e3, ha] at this; cases this
+
+/-- the invariant form: any cover `A` of the active statuses of the state (pool, transient objects, database rows
+and queue) still covers them after the command -/
+theorem set_active_cover (A : Act) (g : Graph) (s : State) (id : Int × String) (outs : List String) (pre : PreSpec)
+    (flow : FlowSpec) (wait : Bool) (h : SOK A s) : SOK A (setCmd g s id outs pre flow wait) :=
+  sok_setCmd g s id outs pre flow wait h
+
+/-- a forced `started` (`cylc set --out=started`, or implied by a later output) changes no status: the proxy is
+stored as it is (the submission try counter is reset) and the children of `started` are spawned
+(`TaskState.reset(forced=True)` refuses the running state) -/
+theorem forced_started_keeps_status (g : Graph) (s : State) (p : Int) (n : String) (c : Option Bool)
+    (x : Proxy) (tr : Bool) (hl : lookup s p n = some (x, tr)) :
+    handleMessage g s p n .internal "started" true c =
+      (spawnChildren g (store s { x with subTry := 0 } tr) p n "started" tr true, false) := by
   unfold handleMessage
-  simp only [hl, hflag]
-  rcases hmsg with h | h
-  · subst h
-    refine ⟨{ x with subTry := 0 }, ?_, rfl⟩
-    simp
-  · subst h
-    refine ⟨x, ?_, rfl⟩
-    have e : store s x tr = s := by
-      unfold store lookup at *
-      split
-      · -- transient: the ghost list is mapped onto itself
-        cases hg : s.get? p n with
-        | some v => simp [hg] at hl; simp_all
-        | none =>
-          simp only [hg] at hl
-          have hfind : (s.ghosts.find? fun y => y.pt == p && y.name == n) = some x := by
-            cases hf : s.ghosts.find? fun y => y.pt == p && y.name == n with
-            | none => simp [hf] at hl
-            | some v => simp [hf] at hl; rw [hl.1]
-          sorry
-      · sorry
-    sorry
+  simp [hl]
+
+/-- a forced `submitted` changes nothing of the proxy: only the children of `submitted` are spawned -/
+theorem forced_submitted_keeps_status (g : Graph) (s : State) (p : Int) (n : String) (c : Option Bool)
+    (x : Proxy) (tr : Bool) (hl : lookup s p n = some (x, tr)) :
+    handleMessage g s p n .internal "submitted" true c = (spawnChildren g s p n "submitted" tr true, false) := by
+  unfold handleMessage
+  simp [hl]
+
+/-- a forced `succeeded` / `expired` resets the status to exactly that final status -/
+theorem forced_succeeded_status (g : Graph) (s : State) (p : Int) (n : String) (c : Option Bool)
+    (x : Proxy) (tr : Bool) (hl : lookup s p n = some (x, tr)) :
+    handleMessage g s p n .internal "succeeded" true c =
+      (spawnChildren g (store s (x.reset (status := some .succeeded)) tr) p n "succeeded" tr true, false) := by
+  unfold handleMessage
+  simp [hl]
+
+theorem forced_expired_status (g : Graph) (s : State) (p : Int) (n : String) (c : Option Bool)
+    (x : Proxy) (tr : Bool) (hl : lookup s p n = some (x, tr)) :
+    handleMessage g s p n .internal "expired" true c =
+      (spawnChildren g (store s (x.reset (status := some .expired) (queued := some false) (runahead := some false)) tr)
+        p n "expired" tr true, false) := by
+  unfold handleMessage
+  simp [hl]
+
+/-- `TaskState.reset` changes the status only to the status asked for -/
+theorem reset_status (x : Proxy) (st : Status) (q r h : Option Bool) :
+    (x.reset (status := some st) (queued := q) (runahead := r) (held := h)).status = st := by
+  unfold Proxy.reset
+  simp only [Option.getD_some]
+  split
+  · rename_i hc
+    simp only [Bool.and_eq_true, beq_iff_eq] at hc
+    exact hc.1.1.1.symm
+  · rfl
+
+/-! ### non-vacuity and the recorded finding -/
+
+def stdOut : List OutDef :=
+  [⟨"expired", "expired"⟩, ⟨"submitted", "submitted"⟩, ⟨"submit-failed", "submit-failed"⟩, ⟨"started", "started"⟩,
+   ⟨"succeeded", "succeeded"⟩, ⟨"failed", "failed"⟩]
+
+/-- `a => b` and `a:submit-fail? => c`, one cycle point -/
+def exG : Graph :=
+  { icp := 1, fcp := 1, start := 1, runahead := 1, seqs := [[1]], stopPoint := some 1,
+    tasks := [
+      { name := "a",
+        insts := [(1, { pre := [], sui := [],
+                        children := [("succeeded", [⟨"b", 1, false⟩]), ("submit-failed", [⟨"c", 1, false⟩])],
+                        nextParentless := none })],
+        firstParentless := some 1, completion := CE.or (CE.var "succeeded") (CE.var "submit_failed"), outputs := stdOut,
+        required := [], skipOut := ["started", "submitted", "succeeded"] },
+      { name := "b",
+        insts := [(1, { pre := [{ atoms := [(⟨1, "a", "succeeded"⟩, false)], expr := none }], sui := [], children := [],
+                        nextParentless := none, validPre := [⟨1, "a", "succeeded"⟩] })],
+        firstParentless := none, completion := CE.var "succeeded", outputs := stdOut, required := ["succeeded"] },
+      { name := "c",
+        insts := [(1, { pre := [{ atoms := [(⟨1, "a", "submit-failed"⟩, false)], expr := none }], sui := [], children := [],
+                        nextParentless := none, validPre := [⟨1, "a", "submit-failed"⟩] })],
+        firstParentless := none, completion := CE.var "succeeded", outputs := stdOut, required := ["succeeded"] }] }
+
+def view (s : State) : List (Int × String × Status × List String × Bool) :=
+  s.pool.map fun x => (x.pt, x.name, x.status, x.done, x.prereqsSatisfied)
+
+-- `cylc set 1/a` without outputs: the success pathway is completed, the child of `succeeded` is spawned with its
+-- prerequisite satisfied, `1/a` is complete and leaves the pool; nothing is launched
+example : view (setCmd exG (init exG) (1, "a") [] .none .default false) = [(1, "b", .waiting, [], true)] ∧
+    (setCmd exG (init exG) (1, "a") [] .none .default false).launched = [] := by decide
+
+-- `cylc set --out=started 1/a`: `submitted` and `started` are completed, the status stays `waiting`
+example : view (setCmd exG (init exG) (1, "a") ["started"] .none .default false) =
+    [(1, "a", .waiting, ["started", "submitted"], true)] := by decide
+
+-- `cylc set --pre=1/a:succeeded 1/b` on a task that is not in the pool: it is spawned with that prerequisite satisfied
+example : view (setCmd exG (init exG) (1, "b") [] (.some [(1, "a", "succeeded")]) .default false) =
+    [(1, "a", .waiting, [], true), (1, "b", .waiting, [], true)] := by decide
+
+/-- the state after `cylc set --pre=all 1/b` and the runahead release of the next main loop -/
+def exReady : State :=
+  (releaseRunahead exG (computeRunahead exG (setCmd exG (init exG) (1, "b") [] .all .default false))).1
+
+-- `ready_task_is_launched`, hypotheses satisfiable: `1/b` is ready in `exReady`; the sweep + submit step launches its first job
+example : ReadyAt exReady 1 "b" 0 false := by
+  have h : (exReady.get? 1 "b").map (fun y => (y.status, y.held, y.runahead, y.prereqsSatisfied, y.submitNum)) =
+      some (Status.waiting, false, false, true, 0) := by decide
+  cases hg : exReady.get? 1 "b" with
+  | none => rw [hg] at h; cases h
+  | some y =>
+    rw [hg] at h
+    simp only [Option.map_some, Option.some.injEq, Prod.mk.injEq] at h
+    exact ⟨y, hg, h.1, h.2.1, h.2.2.1, h.2.2.2.1, h.2.2.2.2, by intro hc; cases hc⟩
+
+example : (1, "b", 1) ∈ (releaseAndSubmit (sweepQueue exReady)).launched := by decide
+
+-- ... a prerequisite that `1/b` does not have changes nothing (hypotheses of `set_no_valid_prereq_noop`)
+example : validPrereqs exG 1 "b" ((PreSpec.some [(1, "a", "started")]).atoms exG) = [] ∧
+    view (setCmd exG (init exG) (1, "b") [] (.some [(1, "a", "started")]) .default false) = view (init exG) := by decide
+
+/-- **recorded finding `set-submit-failed-ignored`**: "setting outputs marks those outputs complete and spawns their
+children" is false for the output `submit-failed` on the unrepaired code (`setSubmitFailedWorks = false`, probed
+from the live source): the command changes nothing in the pool.  With the repair (findings/C29-fix-1.diff) the
+output is completed, the state is `submit-failed`, the child is spawned and the complete task leaves the pool. -/
+theorem set_submit_failed :
+    view (setCmd exG (init exG) (1, "a") ["submit-failed"] .none .default false) =
+      (if setSubmitFailedWorks then [(1, "c", .waiting, [], true)] else view (init exG)) := by decide
 
 end CylcModel.C29
